@@ -25,7 +25,7 @@ PROPERTY = "C19"
 NUM = 19
 RULE = ("cases = a set of 2-8 miniSEED files written by the harness (sampling rates 100/200/250/500 Hz, durations chosen so "
         "that the window length falls on both sides of 2^15 samples and the FFT length chosen for one file differs from "
-        "another's, or the record holds exactly 2 / 3 windows' worth of samples; names with dotted station codes, stems ending in letters of the extension, .mseed/.miniseed, files in a "
+        "another's, or the record holds exactly 2 / 3 windows' worth of samples; window lengths of whole seconds or lengths that are a whole number of time steps for only some of the batch's sampling rates; names with dotted station codes, stems ending in letters of the extension, .mseed/.miniseed, files in a "
         "sub-directory or given by absolute path) x processing settings (traditional / azimuthal / diffuse field) x distribution options; per case several "
         "batches: orders (all for <= 3 files, random above) x --nproc in {1,2,3,n,16} x injected per-task delays; non-trivial = "
         "a batch with >= 2 files of different FFT length sharing a worker, or >= 2 workers; distinct = observed schedules "
@@ -67,7 +67,9 @@ def write_mseed(path, rng, fs, seconds, n=None):
 
 def make_settings(rng, d):
     import hvsrpy
-    wl = float(rng.choice([70.0, 80.0]))
+    # window lengths: whole seconds, or a length that is a whole number of time steps for SOME of the batch's sampling
+    # rates only (70.005 s: 200 Hz; 75.002 s: 500 Hz; 64.0037 s: none) - each file then uses its own whole number of steps
+    wl = float(rng.choice([70.0, 80.0, 70.005, 75.002, 64.0037]))
     corners = [[None, None], [None, None], [0.5, 20.0], [0.3, None], [None, 30.0]][int(rng.integers(0, 5))]
     pre = hvsrpy.HvsrPreProcessingSettings(window_length_in_seconds=wl, detrend=str(rng.choice(["linear", "constant"])),
                                            filter_corner_frequencies_in_hz=corners,
